@@ -169,7 +169,34 @@ pub fn check_spec(ctx: &Ctx, rep: &mut Report, n: u64, d: Dialect, spec: &Stmt) 
     }
 }
 
+/// Directed case outside the random workload: a MySQL UPDATE with two FROM tables. Dropping the second
+/// table is a listed C08 finding (pinned there); for C01 the values of the re-routed condition must still
+/// be bound exactly once, in reading order.
+fn directed(ctx: &Ctx, rep: &mut Report) {
+    use crate::xspec::{b, X};
+    let n = 1u64 << 50;
+    if (ctx.replay.is_none() && ctx.shard != 0) || !ctx.wants(n) {
+        return;
+    }
+    let spec = Stmt::Upd(Upd {
+        with: None,
+        table: "t1".into(),
+        sets: vec![("a".into(), X::Int(1011))],
+        from: vec![From_::Table("t2".into(), None), From_::Table("t3".into(), None)],
+        wheres: vec![
+            X::Bin(b(X::QCol("t1".into(), "id".into())), sea_query::BinOper::Equal, b(X::QCol("t2".into(), "t1_id".into()))),
+            X::Bin(b(X::QCol("t2".into(), "x".into())), sea_query::BinOper::GreaterThan, b(X::Int(1099))),
+            X::In(b(X::QCol("t3".into(), "k".into())), false, vec![X::Int(1007), X::Int(1008)]),
+        ],
+        orders: vec![],
+        limit: None,
+        returning: None,
+    });
+    check_spec(ctx, rep, n, Dialect::Mysql, &spec);
+}
+
 pub fn check(ctx: &Ctx, rep: &mut Report) {
+    directed(ctx, rep);
     let total = ctx.size(6_000, 2_400_000) / ctx.nshards;
     for k in 0..total {
         if !ctx.wants(k) {
